@@ -43,6 +43,8 @@ def gen_history(rng, schema, n_ops, ordered=False):
         r = rng.random()
         if r < 0.22:
             push(FO.gen_crate_op(rng, st, hostile=False))
+        elif r < 0.28 and is_v2(schema):
+            push(FO.gen_foreign_reorder(rng, st))
         else:
             push(FO.gen_membership_op(rng, st))
     return ops, metas
@@ -162,6 +164,25 @@ def judge_case(ctx, res, pid="C08"):
                     placed_after = (p, nid, hid.get(meta["after"]))
                 else:
                     placed_free = (p, nid)
+            elif kind == "foreign_reorder_entries":
+                c = hid[meta["c"]]
+                lst = exp_order.get(c, [])
+                if ordered and (act["ret"]["items"] != len(lst) or act["ret"]["moved"] != (len(lst) >= 2)):
+                    ctx.fail_harness("foreign_reorder saw %s entries, the model has %d" % (act["ret"], len(lst)))
+                    return
+                if act["ret"]["moved"] and len(lst) >= 2:
+                    exp_order[c] = [lst[-1]] + lst[:-1]
+                ctx.bump("foreign_reorders_applied", 1 if act["ret"]["moved"] else 0)
+            elif kind == "foreign_reorder_siblings":
+                p = hid.get(meta["parent"]) if meta["parent"] else None
+                lst = exp_sib.get(p, [])
+                if act["ret"]["moved"]:
+                    mid = act["ret"]["moved_id"]
+                    if ordered and (not lst or lst[-1] != mid):
+                        ctx.fail_harness("foreign_reorder moved sibling %s, the model's last sibling is %s" % (mid, lst[-1:] ))
+                        return
+                    exp_sib[p] = [mid] + [x for x in lst if x != mid]
+                ctx.bump("foreign_reorders_applied", 1 if act["ret"]["moved"] else 0)
             elif kind == "add_track":
                 c, t = hid[meta["c"]], hid[meta["t"]]
                 if (c, t) not in expM:
@@ -579,6 +600,9 @@ def metas_from_ops(ops):
             metas.append({"kind": o, "c": op["c"]})
         elif o == "remove_track":
             metas.append({"kind": o, "t": op["t"]})
+        elif o == "foreign_reorder":
+            metas.append({"kind": "foreign_reorder_entries", "c": op["c"]} if "c" in op else
+                         {"kind": "foreign_reorder_siblings", "parent": op["siblings_of"]})
         else:
             metas.append(None)
     return metas
